@@ -92,10 +92,12 @@ check('C02',
       'and value = - cost; (2) instances: the model builders of Transport, Storage (one or two variables per step, charging efficiency, '
       'in / out / holding costs, inflow, start / end level, two nodes) and SimpleContract (single variable or in/out split with a '
       'non-negative spread) and Contract (the same plus min / max take rows: volume of the period\'s steps against the prorated value) '
-      'on a fine grid realise the textbook transport / storage (level recursion in [0,size], end level, rate x step length) / contract; a boolean test of the instance hypotheses is proved sufficient (RefCorr.v) and evaluated on every '
+      'on a fine grid realise the textbook transport / storage (level recursion in [0,size], end level, rate x step length) / contract; '
+      'MultiCommodityContract (the contract delivering into several nodes with factors) and ExtendedTransport (transport + take rows on the '
+      'quantity leaving node 1) likewise; a boolean test of the instance hypotheses is proved sufficient (RefCorr.v) and evaluated on every '
       'generated portfolio of these classes; (3) building blocks for all classes: in/out split, limits = rate x step length, transport '
       'flows, level recursion, holding cost by Abel summation, take prorating, portfolio = direct sum + nodal rows. Not proved: '
-      'instances for MultiCommodityContract, ExtendedTransport, coarse / periodic grids and the storage binaries; the '
+      'instances for coarse / periodic asset grids and the storage binaries; the '
       'discount factor itself (irrational power, data). Decided per instance: every model builder is compared with the implementation; '
       'for portfolios of the covered classes Coq evaluates the textbook program on EAO\'s result (value = - textbook cost, reported '
       'dispatch = textbook flows, nodal balance); for all classes EAO\'s optimum is compared with the optimum of an independently '
